@@ -70,6 +70,7 @@ impl PathTable {
             &mut String::new(),
             &mut files,
             &mut root,
+            0,
         )?;
 
         Ok(Self {
@@ -102,6 +103,9 @@ impl PathTable {
     }
 }
 
+/// Deepest folder nesting `parse_directory` follows.
+const MAX_PATH_DEPTH: usize = 512;
+
 /// Parse a directory range within the path table.
 ///
 /// `start..end` is the byte range of directory contents (after the folder NodeValue).
@@ -112,7 +116,16 @@ fn parse_directory(
     current_path: &mut String,
     files: &mut Vec<PathFileEntry>,
     tree_node: &mut PathTreeNode,
+    depth: usize,
 ) -> TvfsResult<()> {
+    // One stack frame per folder level: bound the nesting a table can ask for
+    if depth > MAX_PATH_DEPTH {
+        return Err(TvfsError::InvalidPathNode(
+            start,
+            format!("folders nested deeper than {MAX_PATH_DEPTH}"),
+        ));
+    }
+
     let mut pos = start;
 
     while pos < end {
@@ -230,6 +243,7 @@ fn parse_directory(
                 &mut full_path.clone(),
                 files,
                 &mut child_tree,
+                depth + 1,
             )?;
 
             tree_node.children.push(child_tree);
